@@ -2,7 +2,7 @@
    (arbitrary arithmetic, no symmetry), runs that RETURN (Some ...) through several iterations, evaluated by vm_compute. *)
 From Coq Require Import String List Arith Bool ZArith.
 From PV Require Import Model.W4SPrelude Gen.GenCpAls Gen.GenTuckerAls Gen.GenHosvd Model.C10Tucker Proofs.W4SHosvd Proofs.C18Print
-  Proofs.C18GenPrint Proofs.C18GenPrintHosvd Proofs.C18GenPrintTucker.
+  Proofs.C18GenPrint Proofs.C18GenPrintHosvd Proofs.C18GenPrintTucker Gen.GenCpAprMu Proofs.C18GenPrintMu Proofs.C18GenPrintMuModes.
 Import ListNotations.
 Local Open Scope nat_scope.
 
@@ -40,7 +40,7 @@ End C18GenTuckerExample.
 Module C18GenHosvdExample.
 Definition leV (a b : nat) := a <=? b.
 Definition unfold (Y k : nat) := Y + 2 * k.
-Definition gram (M : nat) := M * M + 1.
+Definition gram (M : nat) := (M * M + 1) mod 13.
 Definition eigh (Z : nat) : list nat * nat := ([Z mod 5 + 1; Z mod 3 + 4; Z mod 2 + 2], Z).
 Definition argsort_desc (D : list nat) : list nat := [1; 2; 0].          (* eigenvalue 1 is the largest, then 2, then 0 *)
 Definition take (D : list nat) (p : list nat) := map (fun i => nth i D 0) p.
@@ -81,3 +81,52 @@ Example model_same_fit_differs :
   run (fun X M => X + M) 1 = run (fun X M => X + M) 7.
 Proof. vm_compute. repeat split; discriminate. Qed.
 End C18GenCpAlsExample.
+
+Module C18GenMuInnerExample.
+(* numbers for everything; three inner iterations (KKT value 6, 3, 0 against stoptol 3), counter nInnerIters[1] 0 -> 3, the other
+   entries untouched; printinneritn 1 prints two status lines, 0 none; same result as the generated loop *)
+Definition leF (a b : nat) := a <=? b.
+Definition calc_phi (w X M rank n Pi eps : nat) : nat * nat := (w + 1, (M + Pi + n) mod 7 + 1).
+Definition kkt_mode (M n : nat) (Phi : list nat) := (M + nth n Phi 0) mod 10.
+Definition mult_update (M n : nat) (Phi : list nat) := M + 2 * nth n Phi 0 + 1.
+Notation gloop4 := (GenCpAprMu.cp_apr_mu_loop4 nat nat nat nat nat nat leF calc_phi kkt_mode mult_update).
+Notation hinner q := (mu_inner_loop (mu_st nat nat nat nat) nat nat (m_calc_phi nat nat nat nat nat nat calc_phi kkt_mode 5 1 2)
+  (m_mulupd nat nat nat nat mult_update) (m_ltb nat leF) 3 q).
+
+Example inner_bridge_example :
+  gloop4 4 1 5 1 2 2 3 6 0 (3, [0; 0; 0], true, [0; 0; 0], [4; 0; 0], 100) = Some (17, [0; 0; 3], false, [0; 0; 0], [4; 3; 0], 103) /\
+  fst (hinner 1%Z 6 0 2 4 (3, [0; 0; 0], [0; 0; 0], 100) true 0) = (17, [0; 0; 3], [0; 0; 0], 103, false, 3) /\
+  fst (hinner 0%Z 6 0 2 4 (3, [0; 0; 0], [0; 0; 0], 100) true 0) = (17, [0; 0; 3], [0; 0; 0], 103, false, 3) /\
+  length (snd (hinner 1%Z 6 0 2 4 (3, [0; 0; 0], [0; 0; 0], 100) true 0)) = 2 /\ snd (hinner 0%Z 6 0 2 4 (3, [0; 0; 0], [0; 0; 0], 100) true 0) = [].
+Proof. vm_compute. repeat split; reflexivity. Qed.
+End C18GenMuInnerExample.
+
+Module C18GenMuModesExample.
+(* three modes in outer iteration 1 (the inadmissible-zero repair is active and fires in every mode): 12 inner iterations, 3 repairs;
+   printinneritn 1 prints ten status lines, 0 none; state and counters as in the generated loop *)
+Definition leF (a b : nat) := a <=? b.
+Definition calc_phi (w X M rank n Pi eps : nat) : nat * nat := (w + 1, (M + Pi + n) mod 7 + 1).
+Definition kkt_mode (M n : nat) (Phi : list nat) := (M + nth n Phi 0) mod 10.
+Definition mult_update (M n : nat) (Phi : list nat) := (M + 2 * nth n Phi 0 + 1) mod 50.
+Definition vmask (Phi : list nat) (n M kt : nat) := (nth n Phi 0 + M + kt) mod 3.
+Definition anyb (V : nat) := 0 <? V.
+Definition add_kappa (M n V k : nat) := M + V + k.
+Definition redistribute (M n : nat) := (M + n) mod 40.
+Definition calc_pi (X M rank n N : nat) := (X + M + n) mod 9.
+Definition normalize_mode (M n t : nat) := (M + 3 * n + t) mod 30.
+Notation gloop3 := (GenCpAprMu.cp_apr_mu_loop3 nat nat nat nat nat nat nat leF vmask anyb add_kappa redistribute calc_pi calc_phi kkt_mode
+  mult_update normalize_mode).
+Notation hmodes q := (mu_modes (mu_st nat nat nat nat) nat nat (m_fixslack nat nat nat nat nat vmask anyb add_kappa 2 1)
+  (m_redist nat nat nat nat redistribute) (m_calc_pi nat nat nat nat nat nat calc_pi 5 2 3)
+  (m_calc_phi nat nat nat nat nat nat calc_phi kkt_mode 5 1 2) (m_mulupd nat nat nat nat mult_update)
+  (m_renorm nat nat nat nat normalize_mode) (m_ltb nat leF) 3 4 q).
+
+Example modes_bridge_example :
+  gloop3 3 1 5 1 2 1 4 2 3 3 0 (3, [0; 0; 0], true, [0; 0; 0], @None nat, [4; 0; 0], [0; 0; 0], 100)
+    = Some (14, [4; 4; 3], false, [3; 0; 0], Some 2, [4; 12; 0], [0; 3; 0], 112) /\
+  fst (hmodes 1%Z 1 (seq 0 3) (3, [0; 0; 0], [0; 0; 0], 100) true 0 0) = (14, [4; 4; 3], [3; 0; 0], 112, false, 12, 3) /\
+  fst (hmodes 0%Z 1 (seq 0 3) (3, [0; 0; 0], [0; 0; 0], 100) true 0 0) = (14, [4; 4; 3], [3; 0; 0], 112, false, 12, 3) /\
+  length (snd (hmodes 1%Z 1 (seq 0 3) (3, [0; 0; 0], [0; 0; 0], 100) true 0 0)) = 10 /\
+  snd (hmodes 0%Z 1 (seq 0 3) (3, [0; 0; 0], [0; 0; 0], 100) true 0 0) = [].
+Proof. vm_compute. repeat split; reflexivity. Qed.
+End C18GenMuModesExample.
